@@ -47,7 +47,7 @@ def check(ctx, rep, tier):
 def _sites(ctx, rep, eng):
     table = ctx.model.const("ctparse.types", "pod_hours")
     by_site = {}
-    for site, where, cls, attrs, cal, root in eng.interp.construct_log:
+    for site, where, cls, attrs, cal, root in eng.construct_log:
         if not any(f in attrs for f in RANGES):
             continue
         e = by_site.setdefault(site, {"where": where, "n": 0, "bad": {}, "cal": set(), "pod": set(),
@@ -248,7 +248,7 @@ def _span(ctx, rep, eng):
         rep.ok("span", "ctparse/time/postprocess_latent.py::span carried", "ctparse/time/postprocess_latent.py",
                "{} latent paths".format(nl))
     # (iv) matches are taken on the normalised, label-stripped text
-    cm = ctx.mod("ctparse.ctparse")
+    cm = ctx.imod("ctparse.ctparse")
     gen = cm.func("ctparse_gen")
     ok = False
     for c in calls_in(gen, "_ctparse"):
@@ -269,7 +269,7 @@ def _span(ctx, rep, eng):
     rep.add("span", cm.rel + "::_ctparse::matcher input", cm.where(f), ok,
             "" if ok else "the matcher is not run on the text _ctparse was given")
     # RegexMatch takes its span from the id group of the match
-    tm = ctx.mod("ctparse.types")
+    tm = ctx.imod("ctparse.types")
     init = tm.func("RegexMatch.__init__")
     src = norm(init)
     ok = "span(" in src and "self.mstart" in src and "self.mend" in src
